@@ -498,11 +498,13 @@ theorem root_not_called (g : Graph) (fails : Kind → Bool) (fuel : Nat) (target
     front of `child` (`chainOf`, what `observers_once_in_order` says runs) consists of the observers `obs`,
     in that order. -/
 theorem spliced_chain_is_registration_order (g : Graph) (hc : Closed g) (enew child : Nat)
-    (hchild : child < g.size) (hub : unitBefores g child = []) (obs : List Nat) :
-    let g' := attachObservers g enew child obs none
+    (hchild : child < g.size) (hub : unitBefores g child = []) (obs : List Nat)
+    (h : Nat) (hh : h < g.size) (hout : isUnit (g.kind h) = false) (hne : obs ≠ []) :
+    let g' := attachObservers g enew child obs (some h)
     (chainOf g' g'.size child).map (fun n => observerId (g'.kind n)) = obs.map some := by
   intro g'
-  obtain ⟨h1, h2⟩ := attachObservers_chain g hc enew child hchild hub obs
+  obtain ⟨h1, h2⟩ := attachObservers_chain g hc enew child hchild hub obs (some h)
+    (by intro p hp; cases hp; exact ⟨hh, hout⟩) (by intro h0; exact absurd h0 hne)
   show (chainOf g' g'.size child).map _ = _
   rw [h1]
   apply List.ext_getElem
@@ -533,7 +535,7 @@ theorem splice_nodes (obs : List Nat) : ∀ (hs : List Nat) (g : Graph),
         | none => simpa [hc, he] using splice_nodes obs hs g
         | some enew =>
           simp only []
-          obtain ⟨extra, h1, h2, h3⟩ := splice_nodes obs hs (attachObservers g enew child obs none)
+          obtain ⟨extra, h1, h2, h3⟩ := splice_nodes obs hs (attachObservers g enew child obs (some h))
           refine ⟨obs.map Kind.observer ++ extra, ?_, ?_, ?_⟩
           · rw [h1, attachObservers_nodes]; simp
           · have : ((obs.map Kind.observer).filter isObserver).length = obs.length := by
